@@ -752,4 +752,28 @@ mod proofs {
     }
     fam6i!(c06i_q_w, c06i_body, [Q], 0);
     fam6i!(c06i_rp_b, c06i_body, [R, P], 1);
+
+    // ---- C01 assertions 3-4: legality filter and quiescence generator ------------------------------------
+    fn c01_legal_body(kinds: &[u8], turn: u8) {
+        let (pos, mut bb, (qf, qt, qp), mv) = observed(kinds, turn);
+        let own_king = if turn == 0 { bb.white.occupancy(6).trailing_zeros() as u8 } else { bb.black.occupancy(6).trailing_zeros() as u8 };
+        let ks = if qf == own_king { qt } else { own_king };
+        let n = apply(&pos, qf, qt, qp);
+        let ref_legal = !attacked(&n, ks, 1 - turn);
+        assert_eq!(bb.is_move_legal(mv), ref_legal);
+    }
+    fn c01_nq_body(kinds: &[u8], turn: u8) {
+        let (pos, bb) = any_pos_kinds(kinds, turn);
+        let qf = any_sq(); let qt = any_sq(); let qp: u8 = kani::any();
+        kani::assume(qp == 0 || (qp >= N && qp <= Q));
+        unsafe { Q_KEY = (qf, qt, qp); Q_MATCHES = 0; Q_TOTAL = 0; }
+        let mut buf: Vec<Move> = Vec::new();
+        bb.generate_pseudo_legal_non_quiescent_moves_with_buffer(&mut buf);
+        let m = unsafe { Q_MATCHES };
+        assert!(m <= 1);
+        let noisy = pos.sq[qt as usize] != EMPTY || qp != 0 || is_ep_capture(&pos, qf, qt);
+        assert_eq!(m == 1, pseudo_legal(&pos, qf, qt, qp) && noisy && !is_castle(&pos, qf, qt));
+    }
+    fam!(c01_legal_q_w, c01_legal_body, [Q], 0);
+    fam!(c01_nq_rp_b, c01_nq_body, [R, P], 1);
 }
